@@ -592,6 +592,12 @@ class Folder:
                 return _wrap(args[0] - args[1], bits, signed)
             if meth == 'wrapping_mul':
                 return _wrap(args[0] * args[1], bits, signed)
+            if meth == 'div_ceil':
+                if args[1] == 0:
+                    raise Unfoldable('div0')
+                return -(-args[0] // args[1])
+            if meth == 'next_multiple_of':
+                return -(-args[0] // args[1]) * args[1]
             if meth == 'is_multiple_of':
                 return int(args[1] != 0 and args[0] % args[1] == 0) if args[1] != 0 else int(args[0] == 0)
             if meth == 'is_power_of_two':
